@@ -119,3 +119,111 @@ Example C11_nonvacuous :
   /\ flat (d_reader d) = [129; 1; 120]
   /\ token_list (bs "chat, superchat") = (ps, true).
 Proof. vm_compute. repeat split; reflexivity. Qed.
+
+(* ====================== extension offers ====================== *)
+Require Import HsAgreeExt HsOptionsProofs HsAgreementExtProofs.
+
+(* an option list whose names are tokens and whose parameters are (token attribute, token or
+   absent value) pairs [wf_opts], written by httphead.WriteOptions (the value of the
+   Sec-WebSocket-Extensions line of both httpWriteUpgradeRequest and httpWriteResponseUpgrade),
+   is read back by ScanOptions / ParseOptions as exactly the same list: same options, same
+   parameters, same order, nothing merged or dropped (the model's Parameters is the ordered pair
+   list of httphead's arr/dyn storage, so this is plain equality; duplicates allowed).  An empty
+   list is never written (ParseOptions of the empty value answers false), hence os <> [].
+   Not covered: quoted-string values.  The writer escapes only the double quote and DEL, the scanner removes
+   every backslash (and RemoveByte drops the byte after a backslash in last-but-one position), so
+   e.g. the value  a\b  comes back as  a  (see the Example; a quirk of httphead's writer/scanner
+   pair, not reachable with RFC 6455 extension parameters, which are tokens). *)
+Theorem C11_option_list_roundtrip : forall os, wf_opts os = true -> os <> [] ->
+  parse_options (write_options os) = (os, true).
+Proof. exact option_list_roundtrip. Qed.
+Print Assumptions C11_option_list_roundtrip.
+
+(* agreement with extension offers: a dialer with subprotocols ps (tokens) and offers exts
+   (well-formed as above; duplicates allowed) against an upgrader with a subprotocol selector sel
+   and (a) the deprecated Extension filter [ext] — any predicate on the offered option —, and/or
+   (b) a Negotiate function [neg] that on each offer returns no error and either declines (zero
+   Option) or answers with a well-formed option carrying the name of one of the offers (the echo
+   of the offer, or the same name with parameters of its own) [ext_ok]; Negotiate wins when both
+   are set.  Over any chunkings and buffer sizes of both directions both sides succeed and return
+   the same handshake: the first offered subprotocol the selector accepts, and the extensions
+   [agreed_exts]: the accepted offers resp. the non-declining answers, in the client's order, same
+   names, same parameters in the same order; the bytes behind the response stay readable.
+   Not carried by this theorem: extra headers and objecting callbacks (as in C11_agreement_tokens);
+   a Negotiate function returning an error (the upgrader rejects: C11_rejection_makes_dialer_fail);
+   an answer whose name no offer carries (next theorem); quoted-string parameter values. *)
+Theorem C11_agreement_extensions : forall stext sel ext neg ps exts host uri nonce B1 B2 r1 r2 trailing,
+  1 <= B1 -> 1 <= B2 -> req_ok host uri nonce ps -> ext_ok neg exts = true ->
+  flat r1 = d_request (dialer_upgrade (dcfgx ps exts) host uri nonce B2 r2) ->
+  flat r2 = u_out (upgrader stext (ucfgx sel ext neg) B1 r1) ++ trailing ->
+  let u := upgrader stext (ucfgx sel ext neg) B1 r1 in
+  let d := dialer_upgrade (dcfgx ps exts) host uri nonce B2 r2 in
+  u_err u = None /\ d_err d = None /\ d_hs d = u_hs u
+  /\ u_hs u = mkHs (agreed_protocol sel ps) (agreed_exts ext neg exts)
+  /\ flat (d_reader d) = trailing.
+Proof. exact agreement_extensions. Qed.
+Print Assumptions C11_agreement_extensions.
+
+(* the mismatch side of "or both fail": when one of the (well-formed) answers of the Negotiate
+   function carries a name that no offer carries, the upgrader still completes the handshake
+   (it does not compare answers with offers) and reports those extensions, while the dialer stops
+   at the Sec-WebSocket-Extensions line with ErrHandshakeBadExtensions — the client closes the
+   connection, so no session runs with differing extension sets *)
+Theorem C11_unoffered_extension_makes_dialer_fail :
+  forall stext sel ext f ps exts host uri nonce B1 B2 r1 r2 trailing,
+  1 <= B1 -> 1 <= B2 -> req_ok host uri nonce ps ->
+  wf_opts exts = true -> neg_answers_wf f exts = true ->
+  forallb (offered exts) (neg_answers f exts) = false ->
+  flat r1 = d_request (dialer_upgrade (dcfgx ps exts) host uri nonce B2 r2) ->
+  flat r2 = u_out (upgrader stext (ucfgx sel ext (Some f)) B1 r1) ++ trailing ->
+  let u := upgrader stext (ucfgx sel ext (Some f)) B1 r1 in
+  let d := dialer_upgrade (dcfgx ps exts) host uri nonce B2 r2 in
+  u_err u = None /\ hs_exts (u_hs u) = neg_answers f exts /\ d_err d = Some DBadExtensions.
+Proof. exact unoffered_extension_makes_dialer_fail. Qed.
+Print Assumptions C11_unoffered_extension_makes_dialer_fail.
+
+(* non-vacuity: the dialer offers  permessage-deflate; client_max_window_bits=10;
+   server_no_context_takeover  and  foo; a=1  with subprotocols chat, superchat; the upgrader accepts
+   superchat, echoes permessage-deflate and declines foo.  Both directions are delivered one byte at a
+   time through 16-byte buffers, one frame behind the response.  The hypotheses of
+   C11_agreement_extensions hold, both succeed with superchat and the one extension, parameters in
+   order (the value-less one included).  Same offers against a table that answers foo with bar:
+   hypotheses of C11_unoffered_extension_makes_dialer_fail, server ok, client ErrHandshakeBadExtensions.
+   And the quoted-string value  a\b  that does not survive the writer/scanner pair. *)
+Example C11_agreement_extensions_nonvacuous :
+  let ps := [bs "chat"; bs "superchat"] in
+  let pmd := mkOpt (bs "permessage-deflate")
+               [(bs "client_max_window_bits", bs "10"); (bs "server_no_context_takeover", [])] in
+  let exts := [pmd; mkOpt (bs "foo") [(bs "a", bs "1")]] in
+  let host := bs "server.example.com" in
+  let uri := bs "/chat" in
+  let nonce := bs "dGhlIHNhbXBsZSBub25jZQ==" in
+  let sel := Some (fun p => bytes_eqb p (bs "superchat")) in
+  let neg := Some (fun o => if bytes_eqb (o_name o) (bs "permessage-deflate") then NegOk o else NegOk opt_zero) in
+  let bytewise := fun l : list byte => mkReader [] (map (fun b => [b]) l) TEof in
+  let req := write_upgrade_request (dcfgx ps exts) host uri nonce in
+  let u := upgrader (fun _ => []) (ucfgx sel None neg) 16 (bytewise req) in
+  let d := dialer_upgrade (dcfgx ps exts) host uri nonce 16 (bytewise (u_out u ++ [129; 1; 120])) in
+  let bad := fun o => if bytes_eqb (o_name o) (bs "foo") then NegOk (mkOpt (bs "bar") []) else NegOk o in
+  let u' := upgrader (fun _ => []) (ucfgx sel None (Some bad)) 16 (bytewise req) in
+  let d' := dialer_upgrade (dcfgx ps exts) host uri nonce 16 (bytewise (u_out u')) in
+  req_ok host uri nonce ps
+  /\ (ext_ok neg exts = true
+      /\ write_options exts
+         = bs "permessage-deflate;client_max_window_bits=10;server_no_context_takeover,foo;a=1"
+      /\ parse_options (write_options exts) = (exts, true)
+      /\ u_err u = None /\ d_err d = None
+      /\ hs_protocol (u_hs u) = bs "superchat" /\ hs_exts (u_hs u) = [pmd] /\ d_hs d = u_hs u
+      /\ flat (d_reader d) = [129; 1; 120]
+      /\ wf_opts exts = true /\ neg_answers_wf bad exts = true
+      /\ forallb (offered exts) (neg_answers bad exts) = false
+      /\ u_err u' = None /\ hs_exts (u_hs u') = [pmd; mkOpt (bs "bar") []]
+      /\ d_err d' = Some DBadExtensions
+      /\ parse_options (write_options [mkOpt (bs "x") [(bs "k", [97; 92; 98])]])
+         = ([mkOpt (bs "x") [(bs "k", [97])]], true)).
+Proof.
+  intros ps pmd exts host uri nonce sel neg bytewise req u d bad u' d'. split.
+  - unfold req_ok, is_tok, clean, ps, host, uri, nonce.
+    repeat (split || constructor); try discriminate; reflexivity.
+  - vm_compute. repeat split; reflexivity.
+Qed.
